@@ -2,6 +2,7 @@
 
 E1C = {'real': ['cppcms::service, applications_pool, http / scgi / fastcgi connection classes (src/http_api.cpp, scgi_api.cpp, fastcgi_api.cpp), private/http_parser.h, cgi_api.cpp (load_content, pending output), http::context/request/response, response stream buffers, gzip (zlib), page cache (thread_shared), thread pool, booster::aio io_service + reactor (epoll/poll/select) + stream_socket + acceptor, HTTP watchdog'], 'stub': ['kernel sockets / pipes / readiness / clock (sim/simk)', 'the web server in front of SCGI/FastCGI and the browsers (harness encoders/decoders in harness/wire_proto.h)', 'thread scheduler']}
 E5C = {'real': ['cppcms::session_interface, session_pool::init (config parsing, key checks), sessions::session_cookies / session_sid / session_dual, hmac_cipher, aes_cipher (+ OpenSSL AES/SHA, bundled md5/sha1), b64url, session_memory_storage, session_file_storage on the simulated file system, urandom_device on simulated /dev/urandom'], 'stub': ['browsers (cookie jar honouring Max-Age/Expires against the simulated clock, per-request snapshot of sent cookies)', 'attackers (cookie rewriting)', 'clock', 'entropy (/dev/urandom served from the seed)', 'disk (simulated FS with short/interrupted I/O)']}
+E4C = {'real': ['cppcms::impl::tcp_cache_service (acceptor, per-connection sessions, its own io_service threads)', 'cache_over_ip, tcp_cache, tcp_connector (key -> server hash), messenger (blocking sockets, reconnect-and-retry)', 'L1 and server mem_cache<thread_settings>', 'booster::aio stream_socket / acceptor / io_service / reactor'], 'stub': ['network (simulated stream sockets with segmentation, bounded channels, injected resets)', 'clock (per-node skew)', 'process boundaries: a node is a group of sim threads; a server restart destroys and re-creates the server objects', 'thread scheduler']}
 E2_COMPONENTS = {"real": ["cppcms::impl::mem_cache<thread_settings> (src/cache_storage.cpp)", "mem_cache<process_settings> + shmem_control + buddy_allocator (shared memory)", "private/hash_map.h",
                           "cppcms::cache_interface + triggers_recorder over a real cppcms::service / cache_pool"],
                  "stub": ["clock (time() read by the cache) - simulated, advanced by plan ops"]}
@@ -189,9 +190,26 @@ PROPS = {
    note="Trusts the reference model of the save policy (DESIGN.md Appendix A) and the cookie-jar semantics of the simulated browsers.",
    technique="deterministic simulation (simulated browsers/cookie jars, clock, entropy, disk faults) with a reference model checked after every request",
    design_ref="DESIGN.md s4 C06, s3 E5"),
+ "C10": dict(engine="E4 cache-net", src="e4_cache_net", variants=["asan"], level="exploration",
+   seconds={"quick": 50, "thorough": 800},
+   rule="case = 1..2 real cache servers (1..2 I/O threads), 2..3 client nodes (cache_over_ip with no L1 / unlimited L1 / L1 of 1..4 entries, 2 threads each = per-thread connections) on the simulated network (segmentation, channel capacity 1 B..64 KiB), 5..65 operations store/fetch/rise/clear/stats/clock-advance over 1..4 binary keys (incl. 0x7f, control bytes, 70-byte key), "
+        "values 0..100 KB incl. NUL bytes, 0..40 triggers incl. the empty name. Mode seq (50%): one operation at a time in plan order by any client thread, every result (value, trigger set, deadline, stats, per-server key counts by the documented hash) must equal the single-copy model. "
+        "Mode conc (30%): all client threads run freely, the history must be linearizable against the single-copy model. Mode fault (20%): connection resets after n transferred bytes, server crash+restart (state lost), client clock skew: an operation may throw or a fetch may miss, but a hit must never return a value that was replaced, invalidated or lost before the fetch began. "
+        "non-trivial = run with a fetch hit or a concurrent history; distinct = trace hash",
+   fault_keys=["connection_resets", "server_restarts", "ops_failed", "short_reads", "short_writes", "ticks", "resets_seen"],
+   probe_keys=["mode_seq", "mode_conc", "mode_fault", "fetch_hit", "distribution_checks", "stores_refused_empty_trigger", "overlapping_pairs", "lin_inconclusive", "stats_multi_server_not_atomic"],
+   components=E4C,
+   assumptions=["empty keys are outside the protocol's domain (the server rejects key_len == 0 by design) and are not generated; a store carrying an empty trigger name is refused by the wire format: the model then expects the key to be gone",
+                "stats() over several servers is read server by server and is not checked as an atomic snapshot", "servers run without a size limit so that the single-copy model is exact; L1 limits are exercised (1..4 entries)"],
+   category="exploration",
+   text="Deterministic simulation of cache servers and L1 clients on a simulated network: sequential histories against a single-copy model, concurrent histories by linearizability, and a fault mode (resets, server restart, clock skew) with a never-stale oracle.",
+   note="Trusts the single-copy model, the linearizability checker and the simulated network semantics.",
+   technique="deterministic simulation: real cache servers/clients as groups of scheduled threads on a simulated network with fault injection; single-copy model + linearizability checker",
+   design_ref="DESIGN.md s4 C10, s3 E4"),
 }
 
 ENGINES = [
+ {"name": "E4 cache-net", "path": "harness/e4_cache_net.cpp", "serves_properties": ["C10"], "kind_free_text": "real tcp_cache_service + cache_over_ip nodes on simulated network/clock/scheduler with resets, restarts, skew"},
  {"name": "E5 session", "path": "harness/e5_session.cpp", "serves_properties": ["C05", "C06"], "kind_free_text": "real session stack with simulated browsers, attackers, clock, entropy and disk"},
  {"name": "E1 wire", "path": "harness/e1_wire.cpp", "serves_properties": ["C01", "C02", "C03", "C12"], "kind_free_text": "real cppcms::service with http/scgi/fastcgi front-ends on simulated sockets, clock and scheduler; simulated peers"},
  {"name": "E6 loop", "path": "harness/e6_loop.cpp", "serves_properties": ["C17"], "kind_free_text": "real io_service/reactors/timers/stream_socket/thread_pool on simulated descriptors, clock and scheduler"},
